@@ -118,6 +118,8 @@ def admission (x : PMInput) : Except ErrKind (Int × String × Int × Int × Int
   if x.ndim ≠ 2 ∧ x.ndim ≠ 3 ∧ x.ndim ≠ 4 then .error .value
   else if x.nMappingLists = 0 then .error .type
   else if decide (x.ndim = 4) != x.nested then .error .type
+  -- Rows and Columns (VR US, not 0) must be able to describe the planes
+  else if ¬ (1 ≤ x.r ∧ x.r ≤ 65535 ∧ 1 ≤ x.c ∧ x.c ≤ 65535) then .error .value
   else if x.nMappingLists ≠ x.m then .error .value
   else if x.nPositions ≠ x.n then .error .value
   else
@@ -170,11 +172,12 @@ def toCells (k : Nat) : Nat → List Nat → List Cell
     stored in `FloatPixelData` / `DoubleFloatPixelData` ends in an AttributeError (open finding
     C19-float-frames-unreadable). -/
 def readStoredFrame (o : PMObject) (f : Nat) : Except ErrKind (List Cell) :=
-  if o.element != "PixelData" then .error .attribute
-  else if f < o.numberOfFrames then
+  -- the frame number is standardised first (IndexError beyond the image), then the element is read
+  if ¬ f < o.numberOfFrames then .error .index
+  else if o.element != "PixelData" then .error .attribute
+  else
     let len := o.rows * o.cols * o.itemsize
     .ok (toCells o.itemsize (o.rows * o.cols) ((o.pixelData.drop (f * len)).take len))
-  else .error .index
 
 /-- the Real World Value Mapping Sequence the pixel transform finds for frame `f`: the shared functional
     groups are searched before the frame's own -/
